@@ -38,8 +38,20 @@ def code_str(k):  # the same function as in drive/c05.py
 def tag(a):
     if a["dt"] != "U":
         return DT_TAG[a["dt"]]
-    w = max([len(code_str(0 if v is None else v)) for v in a["vals"]] or [2])
+    w = a.get("w") or max([len(code_str(0 if v is None else v)) for v in a["vals"]] or [2])
     return 100 + w
+
+
+# "fine" cases hold float64 values v + t * 2**-60 (differences far below the default tolerances).
+# The model computes with integers, so for such a case EVERY number of both operands and the
+# absolute tolerance are printed multiplied by 2**60 (the comparison |x-y| <= atol + rtol*|y| is
+# invariant under that scaling).
+FINE = 2 ** 60
+_S = [1]
+
+
+def g_val(v, t=0):
+    return gopt(None if v is None else v * _S[0] + t, gz)
 
 
 # ---- Gallina printers ---------------------------------------------------------
@@ -48,7 +60,12 @@ def g_ostr(s):
 
 
 def g_arr(a):
-    return f"(mkA {glist(a['shape'], gz)} {gbool(a['dt'] == 'U')} {gz(tag(a))} {glist(a['vals'], lambda v: gopt(v, gz))})"
+    ticks = a.get("ticks") or [0] * len(a["vals"])
+    if a["dt"] == "U":
+        vals = "[" + "; ".join(gopt(v, gz) for v in a["vals"]) + "]"
+    else:
+        vals = "[" + "; ".join(g_val(v, t) for v, t in zip(a["vals"], ticks)) + "]"
+    return f"(mkA {glist(a['shape'], gz)} {gbool(a['dt'] == 'U')} {gz(tag(a))} {vals})"
 
 
 EMPTY_ARR = "(mkA [] false 0%Z [])"
@@ -69,7 +86,7 @@ def g_data(d):
         ct, ca = gstr("ragged contiguous"), g_arr(d["comp"]["carr"])
     else:
         ct, ca = gstr(""), EMPTY_ARR
-    return (f"(mkD {g_arr(d['arr'])} {gopt(d.get('fill'), gz)} {g_ostr(d.get('units'))} "
+    return (f"(mkD {g_arr(d['arr'])} {g_val(d.get('fill'))} {g_ostr(d.get('units'))} "
             f"{g_ostr(d.get('cal'))} {ct} {ca})")
 
 
@@ -130,7 +147,10 @@ def g_top(t):
     raise ValueError(k)
 
 
-def g_tol(t):
+def g_tol(t, absolute=False):
+    if absolute and _S[0] != 1:
+        t = [1, 2 ** 52] if t is None else t
+        return f"(Some ({gz(t[0] * _S[0])}, {gz(t[1])}))"
     return "None" if t is None else f"(Some ({gz(t[0])}, {gz(t[1])}))"
 
 
@@ -143,7 +163,7 @@ def g_ip(ip):
 
 
 def g_opts(o):
-    return (f"(mkO {g_tol(o.get('rtol'))} {g_tol(o.get('atol'))} {gbool(o.get('idt', False))} "
+    return (f"(mkO {g_tol(o.get('rtol'))} {g_tol(o.get('atol'), True)} {gbool(o.get('idt', False))} "
             f"{gbool(o.get('ifv', False))} {g_ip(o.get('ip'))} {gbool(o.get('icomp', True))} "
             f"{gbool(o.get('itype', False))})")
 
@@ -690,7 +710,7 @@ def expected_for(pclass, o, level):
         return bool(o.get("itype"))
     if base == "datum_near":
         return None
-    if base in ("identical", "renamed", "reordered"):
+    if base in ("identical", "renamed", "reordered", "strwidth"):
         return True
     return False
 
@@ -951,9 +971,177 @@ def near_expected(x, y, o, path):
     return None
 
 
-def mk_case(fam, kind, x, y, o, pclass, level, extra=False, exp=None):
+def mk_case(fam, kind, x, y, o, pclass, level, extra=False, exp=None, seq=None, fine=False):
+    if seq is None:
+        seq = kind == "field"       # whole fields: always the repeated / reversed sequence
     return {"fam": fam, "x": sync_top({"k": kind, "v": x}), "y": sync_top({"k": kind, "v": y}), "opts": effective_opts(kind, o),
-            "pclass": pclass, "level": level, "extra": extra, "exp": exp}
+            "pclass": pclass, "level": level, "extra": extra, "exp": exp, "seq": seq, "fine": fine}
+
+
+# ---- sub-epsilon differences ------------------------------------------------------------------
+def fine_arrays(obj, out=None):
+    """The float64 arrays inside a description, in a deterministic order (not the fill-value
+    properties, whose value is mirrored on the data, nor compressed data)."""
+    if out is None:
+        out = []
+    if isinstance(obj, dict):
+        if "shape" in obj and "vals" in obj and "dt" in obj:
+            if obj["dt"] == "f8" and any(v is not None for v in obj["vals"]):
+                out.append(obj)
+            return out
+        if obj.get("comp"):
+            return out
+        for k, v in obj.items():
+            if k in ("props", "cparams", "dparams"):
+                for name, pv in v:
+                    if name not in FILL_NAMES and pv is not None:
+                        fine_arrays(pv, out)
+            elif k not in ("opts",):
+                fine_arrays(v, out)
+    elif isinstance(obj, list):
+        for v in obj:
+            fine_arrays(v, out)
+    return out
+
+
+def make_fine(rng, x):
+    """y = x with ONE float64 number changed by less than the default tolerances.
+    -> (x, y, label) or None; x is modified (the chosen number becomes 0 or 1)."""
+    ax = fine_arrays(x)
+    if not ax:
+        return None
+    j = rng.randrange(len(ax))
+    a = ax[j]
+    i = rng.choice([k for k, v in enumerate(a["vals"]) if v is not None])
+    kind = rng.choice(["abs", "rel"])
+    a["vals"][i] = 0 if kind == "abs" else 1
+    y = copy.deepcopy(x)
+    b = fine_arrays(y)[j]
+    b["ticks"] = [0] * len(b["vals"])
+    # 0.0 against 12 * 2**-60 (about 1e-17); 1.0 against nextafter(1.0) = 1 + 2**-52
+    b["ticks"][i] = rng.choice([1, 12, 200]) if kind == "abs" else 256
+    return x, y, "datum_fine:" + kind
+
+
+FINE_OPTS = [{"rtol": [0, 1], "atol": [0, 1]}, {"rtol": [0, 1], "atol": [0, 1]}, {"rtol": [0, 1], "atol": [0, 1]},
+             {}, {"rtol": [0, 1]}, {"atol": [0, 1]}, {"rtol": [0, 1], "atol": [0, 1], "idt": True},
+             {"rtol": [0, 1], "atol": [0, 1], "verbose": 0}]
+
+
+def fine_cases(rng, n):
+    out = []
+    for _ in range(n):
+        kind = rng.choice(["data", "data", "cons", "cons", "bounds", "cm", "cr", "cr", "field", "field", "field"])
+        if kind == "data":
+            x = gen_data(rng, rng.choice([[3], [2, 2], []]), allow_str=False)
+            x["arr"]["dt"] = "f8"
+        elif kind == "cons":
+            cls = rng.choice(["dim", "aux", "domanc", "meas", "fanc"])
+            x = gen_cons(rng, cls, [3] if cls == "dim" else rng.choice([[3], [2, 2]]), rng.choice(NAMES))
+            for p in (x["pd"], x["bounds"], x["iring"]):
+                if p is not None and p["data"]["arr"]["dt"] != "U" and rng.random() < 0.7:
+                    p["data"]["arr"]["dt"] = "f8"
+        elif kind == "bounds":
+            x = gen_pd(rng, [3, 2], None, allow_str=False)
+            x["data"]["arr"]["dt"] = "f8"
+        elif kind == "cm":
+            x = gen_cm(rng, ["domainaxis0", "domainaxis1"])
+            if not x["intervals"]:
+                d = gen_data(rng, [], allow_str=False)
+                d["arr"]["vals"] = [3]
+                d["arr"]["ma"] = False
+                x["intervals"] = [d]
+            for d in x["intervals"]:
+                d["arr"]["dt"] = "f8"
+        elif kind == "cr":
+            x = gen_cr(rng, ["dimensioncoordinate0"], ["domainancillary0"])
+            tgt = x["cparams"] if rng.random() < 0.5 else x["dparams"]
+            tgt.append(["scale_factor_at_central_meridian", {"shape": [], "dt": "f8", "vals": [1], "ma": False, "py": rng.random() < 0.5}])
+        else:
+            x = gen_field(rng, rng.random() < 0.85)
+            for t in x["cons"]:
+                if t[2]["pd"]["data"]["arr"]["dt"] != "U" and rng.random() < 0.5:
+                    t[2]["pd"]["data"]["arr"]["dt"] = "f8"
+            if x.get("data") is not None and rng.random() < 0.6:
+                x["data"]["arr"]["dt"] = "f8"
+        r = make_fine(rng, {"k": kind, "v": x})
+        if r is None:
+            continue
+        tx, ty, label = r
+        o = dict(rng.choice(FINE_OPTS))
+        zero = o.get("rtol") == [0, 1] and o.get("atol") == [0, 1]
+        exp = False if zero else None
+        lvl = "cm" if kind in ("cm", "cr") else "top"
+        if kind == "field" and rng.random() < 0.3:
+            ty["v"] = rename_keys(ty["v"], rng)
+        out.append(mk_case("fine", kind, tx["v"], ty["v"], o, label, lvl, exp=exp, seq=True, fine=True))
+        out.append(mk_case("fine", kind, ty["v"], tx["v"], o, label, lvl, exp=exp, seq=False, fine=True))
+    return out
+
+
+# ---- string data held wider than its longest element ----------------------------------------------
+def strwidth_cases(rng, n):
+    out = []
+    for _ in range(n):
+        if rng.random() < 0.5:
+            kind = "data"
+            x = gen_data(rng, rng.choice([[3], [2, 2]]), allow_str=False)
+            arr = x["arr"]
+        else:
+            kind = "cons"
+            x = gen_cons(rng, rng.choice(["aux", "domanc", "fanc"]), [3], rng.choice(NAMES), simple=True)
+            x["bounds"] = None
+            arr = x["pd"]["data"]["arr"]
+        arr["dt"] = "U"
+        arr["vals"] = [None if v is None else abs(v) + rng.choice([0, 0, 20, 60]) for v in arr["vals"]]
+        y = copy.deepcopy(x)
+        yarr = y["arr"] if kind == "data" else y["pd"]["data"]["arr"]
+        yarr["w"] = tag(arr) - 100 + rng.choice([1, 2, 5])
+        o = gen_opts(rng)
+        out.append(mk_case("string-width", kind, x, y, o, "strwidth", "top", exp=True, seq=True))
+        out.append(mk_case("string-width", kind, y, x, o, "strwidth", "top", exp=True))
+    return out
+
+
+# ---- the field's data moved to another axis of the same size ---------------------------------------
+def moved_axis_cases(rng, n):
+    """Two axes of one size: A carries no construct, B a dimension coordinate (and perhaps more).
+    x's data span A, y's data span B: different fields, whichever is asked."""
+    out = []
+    for _ in range(n):
+        m = rng.choice([1, 2, 3, 3])
+        x = {"isfield": True, "props": gen_props(rng, "air_temperature"), "data": None, "daxes": None,
+             "axes": [["domainaxis0", m], ["domainaxis1", m]], "cons": [], "cms": [], "crs": []}
+        x["cons"].append(["dimensioncoordinate0", ["domainaxis1"], gen_cons(rng, "dim", [m], "latitude", simple=True)])
+        if rng.random() < 0.4:
+            x["cons"].append(["auxiliarycoordinate0", ["domainaxis1"], gen_cons(rng, "aux", [m], "aux_p", simple=True)])
+        extra = []
+        if rng.random() < 0.5:
+            k = rng.choice([1, 2])
+            x["axes"].append(["domainaxis2", k])
+            if rng.random() < 0.6:
+                x["cons"].append(["dimensioncoordinate1", ["domainaxis2"], gen_cons(rng, "dim", [k], "time", simple=True)])
+            extra = ["domainaxis2"] if rng.random() < 0.7 else []
+        for t in x["cons"]:
+            if t[2]["pd"]["data"]["arr"]["dt"] == "U":
+                t[2]["pd"]["data"]["arr"]["dt"] = "f8"
+        pos = rng.randrange(len(extra) + 1)
+        dax = extra[:pos] + ["domainaxis0"] + extra[pos:]
+        x["daxes"] = dax
+        size = dict(x["axes"])
+        x["data"] = gen_data(rng, [size[a] for a in dax], allow_str=False)
+        if rng.random() < 0.4:
+            x["cms"].append(["cellmethod0", gen_cm(rng, ["domainaxis0", "domainaxis1"])])
+        rng.shuffle(x["axes"])
+        y = copy.deepcopy(x)
+        y["daxes"] = ["domainaxis1" if a == "domainaxis0" else a for a in dax]
+        if rng.random() < 0.4:
+            y = rename_keys(y, rng) if rng.random() < 0.5 else reorder(y, rng)
+        o = gen_opts(rng, loose_p=0.15)
+        out.append(mk_case("field-data-axis-moved", "field", x, y, o, "data_axis_moved", "top"))
+        out.append(mk_case("field-data-axis-moved", "field", y, x, o, "data_axis_moved", "top"))
+    return out
+
 
 
 CORPUS = [
@@ -1228,23 +1416,51 @@ def generate(chk):
         elif r < 0.6:
             x["axes"].append(["domainaxis71", 1])
             x["cms"].append(["cellmethod50", {"axes": ["domainaxis71"], "method": "point", "quals": [], "intervals": []}])
+            if rng.random() < 0.4:
+                # a second axis that nothing spans, of the same or another size, with its own cell method
+                x["axes"].append(["domainaxis72", rng.choice([1, 2])])
+                x["cms"].append(["cellmethod52", {"axes": rng.choice([["domainaxis72"], ["domainaxis72", "domainaxis71"]]),
+                                                  "method": "maximum", "quals": [], "intervals": []}])
             y = rename_keys(x, rng) if rng.random() < 0.7 else copy.deepcopy(x)
-            cases.append(mk_case("malformed-cm-unspanned", "field", x, y, o, "renamed", "top"))
+            if rng.random() < 0.3:
+                y = reorder(y, rng)
+            cases.append(mk_case("cm-unspanned-axis", "field", x, y, o, "renamed", "top"))
+            cases.append(mk_case("cm-unspanned-axis", "field", y, x, o, "renamed", "top"))
         else:
             ax = [a for a, _ in x["axes"]] + ["area", "foo_axis"]
             if len(ax) < 3:
                 continue
             cm = gen_cm(rng, ax)
-            cm["axes"] = ax[:3]
+            nax = rng.choice([2, 3])
+            cm["axes"] = ax[:nax]
             ivs = []
-            for _ in range(2):
+            for j in range(rng.choice([n for n in (2, 3, 4) if n != nax])):
                 d = gen_data(rng, [], allow_str=False)
-                d["arr"]["vals"] = [2]
+                d["arr"]["vals"] = [2 + j]
+                d["arr"]["ma"] = False
                 ivs.append(d)
             cm["intervals"] = ivs
             x["cms"].append(["cellmethod51", cm])
             y = copy.deepcopy(x)
-            cases.append(mk_case("malformed-short-intervals", "field", x, y, o, "short-intervals", "top"))
+            which = "identical"
+            if rng.random() < 0.4:
+                y = rename_keys(y, rng)
+                which = "renamed"
+            elif rng.random() < 0.3:
+                y["cms"][-1][1]["intervals"][-1]["arr"]["vals"][0] += 1000
+                which = "cm_interval"
+            cases.append(mk_case("malformed-interval-count", "field", x, y, o, which, "top", extra=True))
+            cases.append(mk_case("malformed-interval-count", "field", y, x, o, which, "top"))
+    # (e) differences below the default tolerances, with zero and default tolerances
+    cases += fine_cases(rng, 170 * scale)
+    # (f) string data held wider than its longest element (equal: commit 61b774a)
+    cases += strwidth_cases(rng, 40 * scale)
+    # (g) the field's data moved from a coordinate-less axis to a same-size axis that has a coordinate
+    cases += moved_axis_cases(rng, 70 * scale)
+    # repeated / reversed sequence on a share of the other kinds too
+    for c in cases:
+        if not c["seq"] and rng.random() < 0.25:
+            c["seq"] = True
     mixed = []
     for _ in range(150 * scale):
         kx, ky = rng.sample(["cons", "bounds", "axis", "cm", "cr", "data", "field", "py"], 2)
@@ -1270,7 +1486,8 @@ def generate(chk):
         o = gen_opts(rng)
         o["itype"] = False      # type(self)(source=<non-construct>) is outside the property
         mixed.append({"fam": "other-type", "x": sync_top({"k": kx, "v": one(kx)}), "y": sync_top({"k": ky, "v": one(ky)}),
-                      "opts": effective_opts(kx, o), "pclass": "othertype", "level": "top", "extra": False, "exp": None})
+                      "opts": effective_opts(kx, o), "pclass": "othertype", "level": "top", "extra": False, "exp": None,
+                      "seq": rng.random() < 0.5, "fine": False})
     for _ in range(60 * scale):
         # two different construct classes (incl. ignore_type between unrelated classes: totality only)
         a, b = rng.sample(list(GCLS), 2)
@@ -1313,12 +1530,8 @@ def classify(c, row, what):
     """Stable signature of a property failure."""
     v = c["x"]["v"]
     if what == "raises":
-        if c["fam"].startswith("malformed-short-intervals"):
-            return "raises:cell-method-fewer-intervals-than-axes"
         return f"raises:{row['exc']}:{c['fam'].split('-')[0]}"
-    if c["x"]["k"] == "field" and c["pclass"] in ("renamed", "reordered", "identical") or what == "key-order":
-        if cm_on_unspanned_axis(v) or cm_on_unspanned_axis(c["y"]["v"]):
-            return "cell-method-on-unspanned-axis"
+    if c["x"]["k"] == "field" and (c["pclass"] in ("renamed", "reordered", "identical") or what == "key-order"):
         if has_twin_groups(v):
             return "twin-axes-order"
     return f"{what}:{c['pclass'].split(':')[0] if not c['pclass'].startswith('cons:') else c['pclass']}"
@@ -1329,6 +1542,9 @@ def oracle(chk, c, row):
     bad = False
     # totality
     rows = [("", row)] + [(k, row[k]) for k in ("self", "copy", "rev") if k in row]
+    seq = row.get("seq")
+    if seq:
+        rows += [("seq-" + k, seq[k]) for k in ("first", "rev", "again", "xcopy", "ycopy", "rev2") if k in seq]
     for label, r in rows:
         if r["exc"] is not None:
             chk.fail("property", classify(c, r, "raises"),
@@ -1340,6 +1556,36 @@ def oracle(chk, c, row):
         bad = True
     if bad:
         return True
+    # purity: the same question on the same objects has the same answer, and neither operand changes
+    o = c["opts"]
+    if seq:
+        if seq.get("fperr"):
+            chk.fail("correspondence", "fingerprint-error", f"the driver could not fingerprint an operand: {seq['fperr']}",
+                     {"correspondence": "drive/c05.py", "input": c})
+        if seq["changed"]:
+            chk.fail("property", classify(c, row, "impure"),
+                     f"equals modified an operand ({', '.join(seq['changed'])}) [{c['fam']} / {c['pclass']}] options {o}",
+                     {"input": c, "observed": seq})
+            bad = True
+        for k in ("first", "again"):
+            if seq[k]["r"] != row["r"]:
+                chk.fail("property", classify(c, row, "impure"),
+                         f"x.equals(y) gave {row['r']}, then {seq[k]['r']} on the same objects ({k}) [{c['fam']} / {c['pclass']}] options {o}",
+                         {"input": c, "observed": seq})
+                bad = True
+        if "rev" in seq and "rev2" in seq and seq["rev"]["r"] != seq["rev2"]["r"]:
+            chk.fail("property", classify(c, row, "impure"),
+                     f"y.equals(x) gave {seq['rev']['r']}, then {seq['rev2']['r']} on the same objects [{c['fam']} / {c['pclass']}] options {o}",
+                     {"input": c, "observed": seq})
+            bad = True
+        for k in ("xcopy", "ycopy"):
+            if k in seq and seq[k]["r"] is not True:
+                chk.fail("property", classify(c, row, "copy"),
+                         f"after x.equals(y) and y.equals(x), {k[0]}.equals(copy taken beforehand) is {seq[k]['r']} [{c['fam']} / {c['pclass']}] options {o}",
+                         {"input": c, "observed": seq})
+                bad = True
+        if "rev" in seq and "rev" not in row:
+            row["rev"] = seq["rev"]
     # reflexivity: itself and its copy
     if "self" in row and row["self"]["r"] is not True:
         chk.fail("property", "not-equal-to-itself", f"x.equals(x) is {row['self']['r']} [{c['fam']}]", {"input": c, "observed": row})
@@ -1349,12 +1595,14 @@ def oracle(chk, c, row):
                  {"input": c, "observed": row})
         bad = True
     # symmetry when no tolerance is in play
-    o = c["opts"]
     exact = o.get("rtol") == [0, 1] and o.get("atol") == [0, 1]
     if "rev" in row and exact and row["rev"]["r"] != row["r"] and c["x"]["k"] == c["y"]["k"]:
         chk.fail("property", classify(c, row, "asymmetric"), f"x.equals(y)={row['r']} but y.equals(x)={row['rev']['r']} with rtol=atol=0",
                  {"input": c, "observed": row})
         bad = True
+    # a demanded answer (perturbation class alone) is demanded in both directions
+    if "rev" in row and c["x"]["k"] == c["y"]["k"] and not c["pclass"].startswith("datum_near"):
+        c["_rev_r"] = row["rev"]["r"]
     # the answer the perturbation class demands
     pc, lvl = c["pclass"], c["level"]
     if pc.startswith("cons:"):
@@ -1365,7 +1613,8 @@ def oracle(chk, c, row):
         pc = pc[6:]
     if c.get("exp") is not None:
         exp = c["exp"]
-    elif pc in ("unrelated", "othertype", "sizeless", "short-intervals", "corpus", "size", "cr_term_key_only"):
+    elif pc in ("unrelated", "othertype", "sizeless", "short-intervals", "corpus", "size", "cr_term_key_only") \
+            or pc.startswith("datum_fine"):
         exp = None
     else:
         exp = expected_for(pc, o, lvl)
@@ -1378,6 +1627,14 @@ def oracle(chk, c, row):
         chk.fail("property", classify(c, row, what),
                  f"{c['fam']} / {c['pclass']}: equals returned {row['r']}, the property demands {exp}; options {o}",
                  {"input": c, "expected": exp, "observed": row["r"]})
+        bad = True
+    rev_r = c.pop("_rev_r", None)
+    if exp is not None and rev_r is not None and rev_r != exp and row["r"] == exp:
+        what = "key-order" if c["pclass"] in ("renamed", "reordered") else ("not-discriminated" if exp is False else "ignore-option-not-honoured")
+        chk.fail("property", classify(c, row, what),
+                 f"{c['fam']} / {c['pclass']}: x.equals(y) is {row['r']} but y.equals(x), on the same objects, returned {rev_r}; "
+                 f"the property demands {exp}; options {o}",
+                 {"input": c, "expected": exp, "observed": rev_r})
         bad = True
     return bad
 
@@ -1419,7 +1676,9 @@ def run(chk, model_ok):
         lits = []
         for i in idx:
             c, r = done[i]
+            _S[0] = FINE if c.get("fine") else 1
             lits.append(f"({g_opts(c['opts'])}, {g_top(c['x'])}, {g_top(c['y'])}, {gz(code_of(r))})")
+            _S[0] = 1
         bad = lib.coq_bad_indices("C05", REQ, "check_case", lits, chunk=250)
         ncorr = len(lits)
         shown = 0
@@ -1447,9 +1706,10 @@ def run(chk, model_ok):
         for kk in c["opts"]:
             optuse[kk] = optuse.get(kk, 0) + 1
     nextra = sum(1 for c, r in done if "copy" in r)
+    nseq = sum(1 for c, r in done if r.get("seq"))
     distinct = {dedup_key(c) for c, r in done if nontrivial(c)}
     chk.coverage.update({
-        "evaluations": len(done) + 3 * nextra,
+        "evaluations": len(done) + 3 * nextra + 6 * nseq,
         "distinct_nontrivial": len(distinct),
         "rule": "a case is a pair of abstract construct descriptions plus an option set; non-trivial = the two "
                 "descriptions differ (a perturbation, renaming, reordering, other construct) or at least one option "
@@ -1465,6 +1725,7 @@ def run(chk, model_ok):
         "option_use": optuse,
         "descriptions_refused_by_api": len(build_errors),
         "self_copy_reverse_calls": nextra,
+        "purity_sequences": nseq,
         "exhaustive": False,
         "historical_refutations": "C05/Refuted.v: witnesses against equals as it was before C05-fix-1..5 (F05a, F05b, F05c, F05d, F05e, F05g, F05h)",
     })
@@ -1473,7 +1734,9 @@ def run(chk, model_ok):
         "tolerances are non-negative; verbose is one of None, -1, 0, 1, 2, 3 (an invalid verbose raises ValueError by design)",
         "operands are built through the public API; `other` is a cfdm construct or component unless ignore_type is False",
         "ignore_type=True between classes outside {DimensionCoordinate, AuxiliaryCoordinate, DomainAncillary} is checked for totality only (the conversion type(self)(source=other) is not modelled)",
-        "a cell method has no, one, or as many intervals as axes (CF); fewer intervals than axes is reported as a known finding",
+        "fingerprints of both operands (all properties, data, masks, axes, keys, cell methods, coordinate references) are "
+        "taken before and after every call of a purity sequence; equals is demanded to change nothing",
+        "sub-epsilon cases: the model sees every number and atol multiplied by 2**60 (exact integers)",
         "the set iteration orders of Constructs._array_constructs / _non_array_constructs do not influence the repaired code",
     ]
 
